@@ -127,7 +127,9 @@ func c09Sweeps(ctx *core.Ctx) {
 			return false
 		}
 		ctx.Eval(1)
-		forLayouts(ctx, tag, m, 0, 0, func(r *ref.Rendered, lc *layoutCase) { c09One(ctx, kind, r, lc); ctx.Flag("c09:sweeps") })
+		// the canonical layout and a rotating quarter of the uniform styles (the subject here is size, not layout)
+		keep := func(si int) bool { return si == 0 || ctx.Thorough() || si%4 == k%4 }
+		forLayoutsSome(ctx, tag, m, 0, 0, keep, func(r *ref.Rendered, lc *layoutCase) { c09One(ctx, kind, r, lc); ctx.Flag("c09:sweeps") })
 		return true
 	})
 }
